@@ -52,3 +52,19 @@ pub fn connector() -> Arc<TlsConnector> {
     let cfg = anytls_rs::util::create_client_config().expect("client config");
     Arc::new(TlsConnector::from(cfg))
 }
+
+/// A certificate whose validity ends `offset_s` seconds from the real "now" (negative = already
+/// expired). Only the sign and size of the offset matter for a verdict, so runs stay reproducible.
+pub fn mint_relative(serial: u8, offset_s: i64) -> (String, String) {
+    let kp = rcgen::KeyPair::generate_for(&rcgen::PKCS_ED25519).expect("keypair");
+    let mut params = rcgen::CertificateParams::new(vec!["localhost".to_string()]).expect("params");
+    let now = time::OffsetDateTime::now_utc();
+    params.not_before = now - time::Duration::days(4000);
+    params.not_after = now + time::Duration::seconds(offset_s);
+    params.serial_number = Some(rcgen::SerialNumber::from(vec![0x52, serial, 0x0a, 0x0b, 0x0c, 0x0d, 0x0e, 0x0f]));
+    let mut dn = rcgen::DistinguishedName::new();
+    dn.push(rcgen::DnType::CommonName, format!("relative-{}", serial));
+    params.distinguished_name = dn;
+    let cert = params.self_signed(&kp).expect("self-signed");
+    (cert.pem(), kp.serialize_pem())
+}
